@@ -262,6 +262,10 @@ def emboss_grammar_check(run, rng, tier):
             toks.insert(i, toks[i])
         elif op == "swap" and i + 1 < len(toks):
             toks[i], toks[i + 1] = toks[i + 1], toks[i]
+        # mutated token strings get no source locations (the parser accepts None; reordered real locations would
+        # trip SourceLocation's own start <= end assertion, which is about the harness, not the parser)
+        pt = importlib.import_module("compiler.util.parser_types")
+        toks = [pt.Token(t.symbol, t.text, None) for t in toks]
         w = [t.symbol for t in toks]
         acc, viable, ok = recognise(prods, nts, module_ir.START_SYMBOL, w)
         res = parser_mod.parse_module(toks)
